@@ -37,6 +37,6 @@ META = {'design_ref': 'DESIGN.md section 7 / C10',
  'level_note': 'Trusted: Coq kernel; the tie (facade engine.rs, harness, OCaml driver incl. the generator); the reference codec used by the simulated broker '
                '(SpecDecodeC2S / SpecEncodeS2C); abstract component hypotheses of the engine theorems (no-panic of codec / validators / resolvers) are '
                'discharged in the codec / validation / alias developments or stated as premises.',
- 'level_text': 'RUN-LEVEL Coq theorems (induction over every event history from the initial state; hypotheses comps_ok - discharged in the C10_instance_* versions -, ok_cfg, ok_event): in every reachable Connected state the resubmit queue and the user queue are sorted by operation id (C10_run_queues_sorted_when_connected); the operations a service call seats are a legal priority-ordered draining of the three queues - head of the high-priority queue, head of the resubmit queue only when that is empty, head of the user queue only when both are empty (C10_service_loop_seats, C10_service_seats_legal, any state) - hence prefixes of the two intake queues, with the whole resubmit queue seated before the first user-queue operation (C10_service_seats_prefix, C10_service_retransmissions_first, any state); at every reachable Connected state the seated ids of either queue are sorted, not larger than anything left behind and smaller than the id of any later submission (C10_run_submission_order); along any run segment that stays Connected the user-queue seats of successive service calls followed by what is left are sorted, and the retransmissions come first across calls (C10_run_connected_segment_order). The seat trace is an instrumented copy of the service loop proved to compute the very same result (C10_service_loop_trace_is_the_loop). PARTIAL: strictly increasing (duplicate-free) queues are proved for every event except a connection close, hence for the whole first connection (C10_no_duplicates_step_partial, C10_run_queues_strictly_sorted_partial, C10_run_queues_strictly_sorted_first_connection_partial); a close keeps the queues duplicate-free from a state whose queue / written / pending places are duplicate-free (CP: C10_close_keeps_queues_duplicate_free_partial, C10_run_queues_strictly_sorted_if_cp_partial, conditional on CP at the closes of the history); that CP holds in every reachable state is not proved (no counterexample found). ONE-STEP theorems: dequeue priority and blocking heads, submissions appended with increasing ids, CONNACK sorts both intake queues into permutations of what they held. Wire order per connection is additionally the monitor mon_c10 on sampled histories; the VecDeque layout fact used by sort_operation_deque is covered by the tie only',
+ 'level_text': 'RUN-LEVEL Coq theorems (induction over every event history from the initial state; hypotheses comps_ok - discharged in the C10_instance_* versions -, ok_cfg, ok_event): in every reachable Connected state the resubmit queue and the user queue are sorted by operation id (C10_run_queues_sorted_when_connected); the operations a service call seats are a legal priority-ordered draining of the three queues - head of the high-priority queue, head of the resubmit queue only when that is empty, head of the user queue only when both are empty (C10_service_loop_seats, C10_service_seats_legal, any state) - hence prefixes of the two intake queues, with the whole resubmit queue seated before the first user-queue operation (C10_service_seats_prefix, C10_service_retransmissions_first, any state); at every reachable Connected state the seated ids of either queue are sorted, not larger than anything left behind and smaller than the id of any later submission (C10_run_submission_order); along any run segment that stays Connected the user-queue seats of successive service calls followed by what is left are sorted, and the retransmissions come first across calls (C10_run_connected_segment_order). The seat trace is an instrumented copy of the service loop proved to compute the very same result (C10_service_loop_trace_is_the_loop). STRICT ORDER (unconditional, same hypotheses): the placement invariant PL - an operation id occurs at most once in user queue ++ resubmit queue ++ written list ++ pending subscribe/unsubscribe table ++ pending publish table; an id in the high-priority queue or the encoder seat is either a pending QoS 2 publish carrying its PUBREL (the one legitimate double placement, it does occur: C10_run_example_triple_placement) or is in none of those places and, while its operation exists, occurs only once in high-priority queue ++ seat - holds initially and is preserved by every event (C10_placement_invariant_step), hence in every reachable state (C10_run_places_once); it implies the premise CP of the close lemma (C10_placement_implies_close_premise, C10_run_close_premise_holds), so in every reachable state the two intake queues hold no id twice (C10_run_queues_duplicate_free) and in every reachable Connected state both are STRICTLY increasing and disjoint (C10_run_queues_strictly_sorted); the ids a service call seats are strictly increasing, strictly smaller than anything left behind, never seated twice and no longer in a queue (C10_run_submission_order_strict); over a Connected segment the user-queue seats followed by what is left are strictly increasing (C10_run_connected_segment_order_strict); a close taken while the PUBREL carrier is half-seated re-queues it once (C10_run_example_close_mid_pubrel); instance versions C10_instance_queues_strictly_sorted / _queues_duplicate_free / _submission_order_strict / _places_once / _connected_segment_order_strict. The earlier conditional theorems (names ending in _partial: steps other than a close, first connection, close under CP, run under CP at the closes) are kept and are subsumed by these. ONE-STEP theorems: dequeue priority and blocking heads, submissions appended with increasing ids, CONNACK sorts both intake queues into permutations of what they held. Wire order per connection is additionally the monitor mon_c10 on sampled histories; the VecDeque layout fact used by sort_operation_deque is covered by the tie only',
  'technique': 'machine-checked proof in Coq over the engine model + lock-step correspondence of the extracted model with the implementation + extracted '
               'monitors on the implementation trace'}
